@@ -354,6 +354,13 @@ func c08NTPInputs(r *ev.Run, rng *rand.Rand, e *c08Env) []c08Input {
 			add("nts-authenticated-unusual-shape", peer.NTSRequest(peer.NTPRequest(peer.UniqueTime64()), randBytes(rng, ul), e.nts.Cookie[0], np, e.nts.C2sKey))
 		}
 	}
+	// correctly authenticated requests whose encrypted part is not a whole number of extension fields
+	for _, pl := range []int{1, 2, 3, 4, 5, 6, 7, 27, 28, 29, 30, 31, 33, 130, 131} {
+		add("nts-authenticated-odd-encrypted-payload", peer.NTSRequestPlain(peer.NTPRequest(peer.UniqueTime64()), randBytes(rng, 32), e.nts.Cookie[0], 0, e.nts.C2sKey, randBytes(rng, pl)))
+		f := append(make([]byte, 0, pl+8), 0x02, 0x04, 0x00, byte(pl+4))
+		f = append(f, randBytes(rng, pl)...) // a cookie-typed field of unaligned length, then a stray byte or two
+		add("nts-authenticated-odd-encrypted-payload", peer.NTSRequestPlain(peer.NTPRequest(peer.UniqueTime64()), randBytes(rng, 32), e.nts.Cookie[0], 0, e.nts.C2sKey, append(f, randBytes(rng, pl%4)...)))
+	}
 	{ // many minimal fields
 		b := append([]byte{}, hdr...)
 		for len(b)+4 <= 2048 {
@@ -836,9 +843,15 @@ func init() {
 				}
 				return in
 			})
+			if strings.HasPrefix(ep.name, "scion-listener") && e.tgt.Alive() && r.Only() == "" {
+				c08Burst(r, ep, e)
+			}
 			// census of the receiving loops: every goroutine that ran the loop at start must still run it
 			if ep.loop != "" && e.tgt.Alive() {
-				after := strings.Count(e.tgt.DumpFull(), ep.loop+"(")
+				time.Sleep(300 * time.Millisecond) // let the loops return to their read calls
+				dump := e.tgt.DumpFull()
+				// a goroutine that is running at the moment of the dump shows no frames: it cannot be told apart
+				after := strings.Count(dump, ep.loop+"(") + strings.Count(dump, "stack unavailable")
 				if ft, err := StartTarget("race", "-ip", e.srv.String(), "-ip2", e.srv2.String(), "-kinds", ep.kinds); err == nil {
 					before := strings.Count(ft.DumpFull(), ep.loop+"(")
 					if after < before {
@@ -918,4 +931,71 @@ func c08QUICSentinel(e *c08Env) bool {
 	case <-time.After(8 * time.Second):
 		return false
 	}
+}
+
+// c08Burst: many sockets at once, every request with a packet authenticator option and a source
+// ISD-AS not seen before (so that every listener goroutine consults and fills its key cache at the
+// same time), followed by the sentinel. State shared between the listener goroutines without
+// synchronisation shows as a fatal error of the Go runtime (or as a race report in the evidence).
+func c08Burst(r *ev.Run, ep *c08Endpoint, e *c08Env) {
+	var wg sync.WaitGroup
+	port := uint16(10123)
+	if strings.Contains(ep.name, "end-host") {
+		port = 30041
+	}
+	for s := 0; s < 16; s++ {
+		wg.Add(1)
+		go func(s int) {
+			defer wg.Done()
+			uc, err := peer.NewUDPClient(e.cli)
+			if err != nil {
+				return
+			}
+			defer uc.Close()
+			rng := rand.New(rand.NewPCG(uint64(r.Seed()), uint64(1000+s)))
+			for k := 0; k < r.Pick(150, 1500); k++ {
+				ia := addr.MustIAFrom(addr.ISD(1+rng.IntN(60000)), addr.AS(1+rng.Int64N(1<<40)))
+				p := &peer.SCIONPkt{SrcIA: ia, DstIA: c08LIA, SrcHost: e.cli, DstHost: e.srv, SrcPort: uc.Local().Port(), DstPort: 10123,
+					Path: peer.SCIONPath(rng, 2), Payload: peer.NTPRequest(peer.UniqueTime64()), FlowID: 1}
+				p.E2E = []*slayers.EndToEndOption{peer.NewAuthOption(1<<17|1<<16|123, 0)}
+				var b []byte
+				if k%2 == 0 {
+					b, err = peer.SignPkt(p, make([]byte, 16))
+				} else {
+					b, err = p.Serialize() // zero MAC: rejected after the key lookup
+				}
+				if err == nil {
+					_ = uc.Send(netip.AddrPortFrom(e.srv, port), b)
+				}
+				if k%8 == 7 {
+					uc.Drain(time.Millisecond)
+				}
+			}
+		}(s)
+	}
+	wg.Wait()
+	r.Eval(16 * int64(r.Pick(150, 1500)))
+	ok := false
+	for a := 0; a < 3 && e.tgt.Alive() && !ok; a++ {
+		ok = ep.sentinel(e)
+	}
+	if ok {
+		r.Class(ep.name + ":survived:concurrent-authenticated-burst")
+		return
+	}
+	w := map[string]any{"endpoint": ep.name}
+	if !e.tgt.Alive() {
+		first, frame := e.tgt.ExitInfo()
+		w["first_line"], w["frame"], w["stderr"] = first, frame, e.tgt.Stderr()
+		kind := "panic:" + c08Sig(frame)
+		if strings.Contains(e.tgt.Stderr(), "concurrent map") {
+			kind = "fatal error: concurrent map access"
+		}
+		r.Violation(ep.name+"|"+kind+"|concurrent authenticated requests from unseen ISD-ASes", "burst", w)
+	} else {
+		w["goroutines"] = e.tgt.Dump()
+		r.Violation(ep.name+"|hang|concurrent authenticated requests from unseen ISD-ASes", "burst", w)
+	}
+	e.tgt.Kill()
+	_ = e.startTarget(ep.kinds)
 }
